@@ -320,6 +320,11 @@ func c09Templates() []c09Tpl {
 		{"printing-capture", `func f() {for true {print("x" * 1000000)}}; x = f(); 1`, "mem", 100, 4000},
 		{"printing-nested", `func g() {for 200 {print("y" * 1000000)}; 1}; func f() {for true {g()}}; f()`, "mem", 100, 4000},
 		{"printing-toplevel", `for true {println("z" * 1000000)}`, "mem", 100, 3000},
+		// round 8: references to the match in a regsub template ($1 stands for text as long as the input), and images (4 MB
+		// each at the largest size, kept by name for the life of the process)
+		{"amplify-regsubrefs", `s = "a" * 20000000; len(regsub("(.*)", s, "$1" * 40))`, "mem", 100, 20000},
+		{"amplify-regsubnamed", `s = "a" * 20000000; len(regsub("(?P<x>.*)", s, "${x}" * 40))`, "mem", 100, 20000},
+		{"images-many", `for i = 400 {n = "img" + str(i); image.new(n, 1024, 1024); image.move_to(n, 0, 0); image.line_to(n, 1023, 0); image.line_to(n, 1023, 1023); image.line_to(n, 0, 1023); image.close_path(n); image.draw(n, [255, 0, 0])}; 1`, "mem", 100, 20000},
 		// small containers that hold themselves several times at every level (tiny in memory, exponential as trees) as
 		// arguments and results of memoizable calls
 		{"shared-argument", `func id(x) {1}; a = [1]; for 45 {a = [a, a, 1]}; id(a); id([a]); id({1: a})`, "", 100, 1000},
